@@ -53,7 +53,7 @@ def pesFeeds (s : St) (bufs : List (List Nat)) : St × List FrameOut × Option E
   bufs.foldl (fun (acc : St × List FrameOut × Option Err) b =>
     match acc with
     | (s, fr, some e) => (s, fr, some e)
-    | (s, fr, none) => let r := pesFeed s b; (r.st, fr ++ r.frames, r.err)) (s, [], none)
+    | (s, fr, none) => let r := pesFeed SrcCfg.current s b; (r.st, fr ++ r.frames, r.err)) (s, [], none)
 
 def tsFeeds (s : TsSt) (bufs : List (List Nat)) : TsSt × List FrameOut × Option Err :=
   bufs.foldl (fun (acc : TsSt × List FrameOut × Option Err) b =>
@@ -65,7 +65,7 @@ def pesCors (s : St) (bufs : List (List Nat)) : St × List FrameOut × Option Er
   bufs.foldl (fun (acc : St × List FrameOut × Option Err) b =>
     match acc with
     | (s, fr, some e) => (s, fr, some e)
-    | (s, fr, none) => let r := pesCorDrain (2 * b.length + 4) demuxCorSkipsEmptyFrame 0 s b 0 64; (r.st, fr ++ r.frames, r.err)) (s, [], none)
+    | (s, fr, none) => let r := pesCorDrain (2 * b.length + 4) SrcCfg.current 0 s b 0 64; (r.st, fr ++ r.frames, r.err)) (s, [], none)
 
 def tsCors (s : TsSt) (bufs : List (List Nat)) : TsSt × List FrameOut × Option Err :=
   bufs.foldl (fun (acc : TsSt × List FrameOut × Option Err) b =>
